@@ -179,13 +179,17 @@ def field_entries(td, f):
             ps.append(("expression", "expr", s["expr"]))
         if ps or s.get("flag"):
             out.append((carrier, ps))
+    for raw in f.sem.get("_raw", []):
+        out.append(("RAW", raw))
     return out
 
 
 def variant_entries(td, v):
     out = []
+    for raw in v.sem.get("_raw", []):
+        out.append(("RAW", raw))
     for t, s in v.sem.items():
-        if not s:
+        if not s or t.startswith("_"):
             continue
         ps = []
         if t == "Debug":
@@ -226,18 +230,27 @@ def type_entries(td):
         if s.get("bound") is not None:
             ps.append(("bound", "bound", s["bound"]))
         out.append((t, ps))
+    for raw in td.tsem.get("_raw", []):
+        out.append(("RAW", raw))
     return out
 
 
 def render(td, rng=None, canonical=False, spell=None, vis="pub ", strip=False, extras=True,
-           order_rng=None, layout=None):
+           order_rng=None, layout=None, entries_hook=None):
     """Rust text of the definition. `spell(level, trait, params, default)` may override spelling."""
     def sp(level, trait, params):
+        if trait == "RAW":
+            return params
         if spell:
             r = spell(level, trait, params)
             if r is not None:
                 return r
         return A.spell_entry(trait, params, level, rng, canonical=canonical or rng is None)
+
+    def ents(level, obj, lst):
+        if entries_hook is not None:
+            lst = entries_hook(level, obj, list(lst))
+        return [sp(level, t, ps) for t, ps in lst]
 
     def lay(es, ind):
         if strip:
@@ -253,7 +266,7 @@ def render(td, rng=None, canonical=False, spell=None, vis="pub ", strip=False, e
         out.append("#[derive(%s)]\n" % ", ".join(td.other_derives))
     if not strip:
         out.append("#[derive(::educe::Educe)]\n")
-    out.append(lay([sp("type", t, ps) for t, ps in type_entries(td)], ""))
+    out.append(lay(ents("type", td, type_entries(td)), ""))
     for r in td.reprs:
         out.append("#[repr(%s)]\n" % r)
     where = (" where " + ", ".join(td.where)) if td.where else ""
@@ -262,7 +275,7 @@ def render(td, rng=None, canonical=False, spell=None, vis="pub ", strip=False, e
     def fields_text(v, ind):
         parts = []
         for f in v.fields:
-            a = lay([sp("field", t, ps) for t, ps in field_entries(td, f)], ind)
+            a = lay(ents("field", f, field_entries(td, f)), ind)
             if v.style == "named":
                 parts.append("%s%s%s%s: %s,\n" % (a, ind, vis if td.kind != "enum" else "", f.name, f.ty))
             else:
@@ -280,7 +293,7 @@ def render(td, rng=None, canonical=False, spell=None, vis="pub ", strip=False, e
     else:
         out.append("%s%s {\n" % (head, where))
         for v in td.variants:
-            out.append(lay([sp("variant", t, ps) for t, ps in variant_entries(td, v)], "    "))
+            out.append(lay(ents("variant", v, variant_entries(td, v)), "    "))
             disc = (" = %s" % v.disc) if v.disc is not None else ""
             if v.style == "unit":
                 out.append("    %s%s,\n" % (v.name, disc))
